@@ -57,7 +57,7 @@ theorem authorizeCodeChallenge_err {now v ch e} (h : AuthorizeCodeChallenge now 
 theorem validateGrantType_iff {now c g} : ValidateGrantType now c g = true ↔ g ∈ c.grants := by
   unfold ValidateGrantType
   simp only [Go.any, OPClient.GrantTypes, Go.isNil]
-  go_leaf [Nilable.isNil]
+  go_leaf [Nilable.isNil, Go.contains]
 
 theorem validateGrantType_eq {now c g} : ValidateGrantType now c g = decide (g ∈ c.grants) := by
   have h := validateGrantType_iff (now := now) (c := c) (g := g)
